@@ -83,7 +83,9 @@ macro_rules! cur_float {
     ($t:ty, $bits:ty) => {
         impl Cur for $t {
             fn name() -> String { stringify!($t).into() }
-            fn same(a: &Self, b: &Self) -> bool { a.to_bits() == b.to_bits() }
+            // bit-exact, except that any NaN round-tripping to a NaN counts as equal: the statement does not
+            // promise NaN sign/payload bits and no API can observe them through a cursor
+            fn same(a: &Self, b: &Self) -> bool { a.to_bits() == b.to_bits() || (a.is_nan() && b.is_nan()) }
             fn show(a: &Self) -> J { json!(a.to_bits() as u64) }
             fn unshow(v: &J) -> Option<Self> { Some(<$t>::from_bits(v.as_u64()? as $bits)) }
             fn vkey(a: &Self) -> String { fcat(a.is_nan(), a.is_infinite(), a.is_sign_negative(), *a == 0.0, a.is_subnormal()) }
